@@ -20,6 +20,17 @@ pub fn assume_init_read<T, N: ArrayLength>(array: Slots<T, N>) -> (r: GenericArr
     ensures r.slots == array,
 { unimplemented!() }
 
+// Box::<GenericArray<MaybeUninit<T>, N>>::new_uninit().assume_init(): std allocates (or ends in handle_alloc_error - assumed
+// contract of Box::new_uninit) and the Box owns the block; for the slot ledger a boxed block is a block (rule R-box)
+#[verifier::external_body]
+pub fn box_new_uninit<T, N: ArrayLength>() -> (r: Slots<T, N>) ensures r.ok(), r.all_dead() { unimplemented!() }
+// Box::from_raw(Box::into_raw(array).cast()): reinterprets Box<[MaybeUninit<T>; N]> as Box<[T; N]> - UB unless all initialised
+#[verifier::external_body]
+pub fn box_assume_init<T, N: ArrayLength>(array: Slots<T, N>) -> (r: GenericArray<T, N>)
+    requires array.ok(), array.all_live(),
+    ensures r.slots == array,
+{ unimplemented!() }
+
 pub struct LengthError;
 
 // caller-supplied iterator (rule R-foreign): opaque; its ghost state is everything it has returned so far, so sources
